@@ -806,6 +806,11 @@ func (in *Interp) globalObj(st *State, g *ssa.Global) *Object {
 	}
 	in.nextObj++
 	o := &Object{id: in.nextObj, label: "global:" + g.Name()}
+	// a package variable of the library exists before any call: first touched after vFreeze it is still pre-existing
+	// memory for the frame monitor (the harness's own variables are not library state)
+	if pos := in.prog.Fset.Position(g.Pos()); !strings.Contains(pos.Filename, "zz_verif_") {
+		o.pre = true
+	}
 	in.globals[g] = o
 	z := zeroValue(g.Type().(*types.Pointer).Elem())
 	in.globalHeap[o] = z
@@ -1228,35 +1233,51 @@ func (fr *Frame) sliceOp(st *State, x *ssa.Slice) (Value, bool) {
 			boundVals[i] = fr.eval(st, v)
 		}
 	}
+	var bad []*Term
+	r := fr.sliceOpSplit(st, x, boundVals, tTrue, &bad)
+	if !fr.handleBad(st, bad, "slice bounds out of range", x) || r == nil {
+		return nil, false
+	}
+	return r, true
+}
+
+// sliceOpSplit: nil when no combination of alternatives is in range; the guards of the out-of-range combinations go to *bad
+func (fr *Frame) sliceOpSplit(st *State, x *ssa.Slice, boundVals [3]Value, under *Term, bad *[]*Term) Value {
 	for i := range boundVals {
 		if ch, ok := boundVals[i].(*Choice); ok {
-			var bad []*Term
 			var out []Alt
 			for _, a := range ch.alts {
+				g := And(under, a.g)
+				if g == tFalse {
+					continue
+				}
 				bv := boundVals
-				bv[i] = a.v
-				r, ok := fr.sliceOpWith(st, x, bv, a.g)
-				if !ok {
-					bad = append(bad, a.g)
+				for j := range bv {
+					if c2, ok := bv[j].(*Choice); ok && c2 == ch {
+						bv[j] = a.v // the same multi-valued operand used for several bounds
+					}
+				}
+				r := fr.sliceOpSplit(st, x, bv, g, bad)
+				if r == nil {
 					continue
 				}
 				out = append(out, Alt{a.g, r})
 			}
-			if !fr.handleBad(st, bad, "slice bounds out of range", x) || len(out) == 0 {
-				return nil, false
+			if len(out) == 0 {
+				return nil
 			}
 			res := out[len(out)-1].v
 			for k := len(out) - 2; k >= 0; k-- {
 				res = mergeValue(out[k].g, out[k].v, res)
 			}
-			return res, true
+			return res
 		}
 	}
-	return fr.sliceOpWith(st, x, boundVals, tTrue)
+	return fr.sliceOpWith(st, x, boundVals, under, bad)
 }
 
 // sliceOpWith: slice with concrete bounds; alternatives of a multi-valued base whose guard contradicts `under` are skipped
-func (fr *Frame) sliceOpWith(st *State, x *ssa.Slice, bounds [3]Value, under *Term) (Value, bool) {
+func (fr *Frame) sliceOpWith(st *State, x *ssa.Slice, bounds [3]Value, under *Term, badOut *[]*Term) Value {
 	in := fr.in
 	base := fr.eval(st, x.X)
 	if ch, ok := base.(*Choice); ok && under != tTrue {
@@ -1267,7 +1288,7 @@ func (fr *Frame) sliceOpWith(st *State, x *ssa.Slice, bounds [3]Value, under *Te
 			}
 		}
 		if len(alts) == 0 {
-			return nil, false
+			return nil
 		}
 		if len(alts) == 1 {
 			base = alts[0].v
@@ -1356,10 +1377,12 @@ func (fr *Frame) sliceOpWith(st *State, x *ssa.Slice, bounds [3]Value, under *Te
 		unsupported("Slice on %T", b)
 		return nil, false
 	}, &bad)
-	if !fr.handleBad(st, bad, "slice bounds out of range", x) {
-		return nil, false
+	for _, b := range bad {
+		if g := And(under, b); g != tFalse {
+			*badOut = append(*badOut, g)
+		}
 	}
-	return r, true
+	return r
 }
 
 func (fr *Frame) typeAssert(st *State, x *ssa.TypeAssert) (Value, bool) {
@@ -1674,12 +1697,20 @@ func (fr *Frame) binop(st *State, op token.Token, a, b Value, opndT, resT types.
 		case FVal:
 			yv := y.(FVal)
 			switch op {
-			case token.ADD:
-				return fAdd(xv, yv), true
-			case token.SUB:
-				return fSub(xv, yv), true
-			case token.MUL:
-				return fMul(xv, yv), true
+			case token.ADD, token.SUB, token.MUL:
+				var r FVal
+				switch op {
+				case token.ADD:
+					r = fAdd(xv, yv)
+				case token.SUB:
+					r = fSub(xv, yv)
+				default:
+					r = fMul(xv, yv)
+				}
+				if curFloatMode != modeAbstract && xv.den == nil && yv.den == nil && in.b1IsRepo(fr.fn) {
+					in.b1Note(r, instr)
+				}
+				return r, true
 			case token.QUO:
 				return fDiv(xv, yv), true
 			case token.LSS:
